@@ -15,8 +15,10 @@ echo "== build"; go build ./... || { echo "RESULT no-build"; git checkout -q -- 
 echo "== suite (mutated)"; go test -vet=off -count=1 ./... 2>&1 | grep -v "no test files" | tail -12
 suite=${PIPESTATUS[0]}
 DEMOS=$(ls "$OUT"/*_test.go 2>/dev/null)
+RX=$(grep -h '^func Test' $DEMOS | sed -E 's/^func (Test[A-Za-z0-9_]*).*/\1/' | paste -sd'|')
+RX="^(${RX})\$" 
 for d in $DEMOS; do cp "$d" "$PKG/zz_$(basename $d)"; done
-echo "== demo (mutated; must fail)"; timeout 120 go test -vet=off -count=1 -run 'Demo|demo|Mut|C[0-9][0-9]' "./$PKG" 2>&1 | tail -15
+echo "== demo (mutated; must fail)"; timeout 120 go test -vet=off -count=1 -run "$RX" "./$PKG" 2>&1 | tail -15
 demo_mut=${PIPESTATUS[0]}
 for d in $DEMOS; do rm -f "$PKG/zz_$(basename $d)"; done
 # checks on the mutated tree
@@ -26,7 +28,7 @@ for P in "$@"; do
 done
 git checkout -q -- .
 for d in $DEMOS; do cp "$d" "$PKG/zz_$(basename $d)"; done
-echo "== demo (clean; must pass)"; timeout 120 go test -vet=off -count=1 -run 'Demo|demo|Mut|C[0-9][0-9]' "./$PKG" 2>&1 | tail -5
+echo "== demo (clean; must pass)"; timeout 120 go test -vet=off -count=1 -run "$RX" "./$PKG" 2>&1 | tail -5
 demo_clean=${PIPESTATUS[0]}
 for d in $DEMOS; do rm -f "$PKG/zz_$(basename $d)"; done
 git checkout -q -- . ; git clean -fdq -e _out
